@@ -1207,8 +1207,18 @@ func handleZRANGESTORE(params internal.HandlerFuncParams) ([]byte, error) {
 		}
 	}
 
+	// The destination always receives the result of the range, also when the result is empty.
+	storeEmpty := func() ([]byte, error) {
+		if err := params.SetValues(params.Context, map[string]interface{}{
+			destination: NewSortedSet([]MemberParam{}),
+		}); err != nil {
+			return nil, err
+		}
+		return []byte(":0\r\n"), nil
+	}
+
 	if !sourceExists {
-		return []byte("*0\r\n"), nil
+		return storeEmpty()
 	}
 
 	set, ok := params.GetValues(params.Context, []string{source})[source].(*SortedSet)
@@ -1217,7 +1227,7 @@ func handleZRANGESTORE(params internal.HandlerFuncParams) ([]byte, error) {
 	}
 
 	if offset > set.Cardinality() {
-		return []byte(":0\r\n"), nil
+		return storeEmpty()
 	}
 	if count < 0 {
 		count = set.Cardinality() - offset
@@ -1237,7 +1247,7 @@ func handleZRANGESTORE(params internal.HandlerFuncParams) ([]byte, error) {
 		// If policy is BYLEX, all the elements must have the same score
 		for i := 0; i < len(members)-1; i++ {
 			if members[i].Score != members[i+1].Score {
-				return []byte(":0\r\n"), nil
+				return storeEmpty()
 			}
 		}
 		slices.SortFunc(members, func(a, b MemberParam) int {
